@@ -24,7 +24,7 @@ import (
 func init() {
 	ev.Register(&ev.Spec{
 		ID: "C10", Level: "exploration",
-		Rule:            "a real client against a scripted fake server whose request-stream monitor tracks outstanding tags and bound fids: (1) k concurrent calls (GetAttr, ReadAt, Readdir, Readlink, StatFS, FSync, mixed), replies released in every order for k <= 5 (quick k <= 4) and PRNG orders up to k = 128, reply contents a function of the request so each caller checks it got its own; (2) the allocator through a verif hook: every Get/Put sequence up to length 9 over small ranges, and concurrent Get/Put histories checked for linearizability with porcupine against a free-set model; (3) at every reply point of a concurrent session the server instead closes / sends half a frame and closes / breaks only the client's write side / sends size<7, size>msize, an unknown tag, a wrong R-type, an undecodable body: every call pending then (and, after a break, every later call) must return an error, none may hang (quiescence) or return foreign data; (4) PRNG concurrent sessions with clunk/walk churn for fid re-use accounting; (5) fids whose fate the client cannot know: Close / Remove / Walk pending, a non-fatal unacceptable frame, 14 further walks, the request-stream monitor watches fid numbers; (6) late replies: the old requests are answered after all, under their own tags, while new calls are pending - no new call may be handed one. Callers check data and, for calls answered Rlerror, an errno that is a function of the fid. (7) a send that fails after delivery: a transport whose Write reports an error although the peer received the request, another caller waiting with the right to receive, the reply arriving across the withdrawal - nothing crashes, the other call and a later call get their own replies. (7c) a send that fails half way through a frame with 1-3 calls registered and waiting for their turn: all of them fail, none writes behind the half frame, none hangs. (7d) stale completion: the receiver held (verifPoint hook) between taking a request out of the pending table and completing it while its caller withdraws; the next call in the process, on another Client with a silent server, must not return. (8) 6 goroutines on ONE File with pairwise different arguments (Readdir, ReadAt, GetAttr); results are re-examined once the round is over. (9) break under load: one caller receiving, 600 registered and in or behind the send, both directions fail; all fail, and a second Client on a healthy connection afterwards gets its own replies (the response objects are recycled process-wide). Non-trivial: >= 2 calls outstanding; distinct by (batch mix, order) / (fault kind, point).",
+		Rule:            "a real client against a scripted fake server whose request-stream monitor tracks outstanding tags and bound fids: (1) k concurrent calls (GetAttr, ReadAt, Readdir, Readlink, StatFS, FSync, mixed), replies released in every order for k <= 5 (quick k <= 4) and PRNG orders up to k = 128, reply contents a function of the request so each caller checks it got its own; (2) the allocator through a verif hook: every Get/Put sequence up to length 9 over small ranges, and concurrent Get/Put histories checked for linearizability with porcupine against a free-set model; (3) at every reply point of a concurrent session the server instead closes / sends half a frame and closes / breaks only the client's write side / sends size<7, size>msize, an unknown tag, a wrong R-type, an undecodable body: every call pending then (and, after a break, every later call) must return an error, none may hang (quiescence) or return foreign data; (4) PRNG concurrent sessions with clunk/walk churn for fid re-use accounting; (5) fids whose fate the client cannot know: Close / Remove / Walk pending, a non-fatal unacceptable frame, 14 further walks, the request-stream monitor watches fid numbers; (6) late replies: the old requests are answered after all, under their own tags, while new calls are pending - no new call may be handed one. Callers check data and, for calls answered Rlerror, an errno that is a function of the fid. (7) a send that fails after delivery: a transport whose Write reports an error although the peer received the request, another caller waiting with the right to receive, the reply arriving across the withdrawal - nothing crashes, the other call and a later call get their own replies. (7c) a send that fails half way through a frame with 1-3 calls registered and waiting for their turn: all of them fail, none writes behind the half frame, none hangs. (7d) stale completion: the receiver held (verifPoint hook) between taking a request out of the pending table and completing it while its caller withdraws; the next call in the process, on another Client with a silent server, must not return. (8) 6 goroutines on ONE File with pairwise different arguments (Readdir, ReadAt, GetAttr); results are re-examined once the round is over. (9) break under load: one caller receiving, 600 registered and in or behind the send, both directions fail; all fail, and a second Client on a healthy connection afterwards gets its own replies (the response objects are recycled process-wide). (10) the tag space used up by history: 65534 calls fail their wait on a usable connection (each retires its tag), the next ones must fail instead of going out under NOTAG, a retired tag or one in flight. Non-trivial: >= 2 calls outstanding; distinct by (batch mix, order) / (fault kind, point).",
 		Assume:          []string{"fake server replies are a deterministic function of the request body", "race detector on the large concurrent part"},
 		Shards:          shards(8, 16),
 		Race:            raceIn("thorough"),
@@ -192,6 +192,7 @@ func runC10(c *ev.Ctx) {
 	c10StaleCompletion(c)
 	c10SharedFile(c)
 	c10BreakUnderLoad(c)
+	c10TagSpace(c)
 }
 
 // (1) reply permutations.
